@@ -3,6 +3,7 @@ package checks
 import (
 	"context"
 	"fmt"
+	"go.mongodb.org/mongo-driver/mongo/options"
 	"strings"
 	"sync/atomic"
 
@@ -19,6 +20,8 @@ import (
 var c03Actions = []string{
 	"A.StartTransaction", "A.InsertOne", "A.UpdateMany($inc n)", "A.DeleteOne({})", "A.CommitTransaction", "A.AbortTransaction", "A.EndSession",
 	"C.InsertOne", "C.UpdateMany($inc n)", "C.DeleteMany({n:{$gte:2}})", "C.CreateIndex({n:1})", "C.DropAllIndexes", "C.DropCollection", "env.NextStoreFails",
+	// statements that change nothing: they must not make the transaction forget what it already changed
+	"A.DeleteMany({n:{$lt:0}}) matching nothing", "A.BulkWrite(update and delete of a missing _id)",
 }
 
 type c03Doc struct{ id, n int32 }
@@ -194,9 +197,16 @@ func (r *c03Runner) Step(a int) bool {
 			r.open, r.dirty = true, false
 			r.view = append([]c03Doc{}, r.commit...)
 		}
-	case 1, 2, 3:
+	case 1, 2, 3, 14, 15:
 		var err error
 		switch a {
+		case 14:
+			_, err = coll.DeleteMany(r.sctx, bD("n", bD("$lt", int32(0))))
+		case 15:
+			_, err = coll.BulkWrite(r.sctx, []mongo.WriteModel{
+				mongo.NewUpdateOneModel().SetFilter(bD("_id", int32(-1))).SetUpdate(bD("$set", bD("z", int32(1)))),
+				mongo.NewDeleteOneModel().SetFilter(bD("_id", int32(-1))),
+			}, options.BulkWrite().SetOrdered(false))
 		case 1:
 			_, err = coll.InsertOne(r.sctx, c03NewDoc(r.nextID))
 		case 2:
@@ -429,7 +439,7 @@ func init() {
 			[]string{"A.StartTransaction", "A.InsertOne", "env.NextStoreFails", "A.CommitTransaction"},
 			[]string{"C.InsertOne", "A.StartTransaction", "A.UpdateMany($inc n)", "A.AbortTransaction"},
 			[]string{"C.InsertOne", "C.CreateIndex({n:1})", "C.DropCollection", "A.InsertOne"}})
-		r.Set("rule", "E1 DFS without deduplication: every sequence of the 14 actions of length <= depth, plus every sequence of length depth+2 starting with one of deep_prefixes (plain-client writes are not offered while the session holds the writer slot); 'states' counts executed complete paths; after every step both visibility reads are compared with a hand model, and every snapshot taken at every earlier step (read-only transaction, catalog pointer) is re-dumped byte-for-byte; cursors are drained at the end of the path")
+		r.Set("rule", "E1 DFS without deduplication: every sequence of the 16 actions of length <= depth, plus every sequence of length depth+2 starting with one of deep_prefixes (plain-client writes are not offered while the session holds the writer slot); 'states' counts executed complete paths; after every step both visibility reads are compared with a hand model, and every snapshot taken at every earlier step (read-only transaction, catalog pointer) is re-dumped byte-for-byte; cursors are drained at the end of the path")
 		r.Assume("writers that would block on the writer slot are explored under the controlled scheduler (C04/C16), not here", "documents are {_id, n, g:[[0,n],[0]], s:{t:[n]}}; other value shapes are covered by C17")
 		if ps.Paths < 10000 || st.commits < 1000 || st.failedCommits < 50 || st.aborts < 500 {
 			r.Broken("vacuous: paths=%d commits=%d failed=%d aborts=%d", ps.Paths, st.commits, st.failedCommits, st.aborts)
